@@ -21,7 +21,7 @@ import (
 // units (the half units keep the loop's time comparisons half a unit away from their
 // thresholds when the script runs on whole units).
 //
-// input : hashLimit ; N t peer off id,id.. ; R t id,id.. ; I t id b ; S t b ; E t
+// input : hashLimit [idsPerBatch] ; N t peer off id,id.. ; R t id,id.. ; I t id b ; S t b ; E t
 //         N = NotifyAnnounces(peer, ids, now - off units)   R = NotifyReceived(ids)
 //         I = OnlyInterested answers b for id from now on    S = Suspend() answers b from now on
 //         E = end of the script (the fetcher is stopped).  t in units.
@@ -33,7 +33,9 @@ import (
 //         q:<t>:<peer>:<ids>       a request function was called
 //         i:<t>:<id>:<b> s:<t>:<b> the script changed an oracle answer
 //         e:<t>                    end
-// Every notification carries one extra id 1000+k that is never interesting, which tells the
+// N ops with the same t are sent by concurrent callers.  idsPerBatch (default 99) sets MaxBatch =
+// idsPerBatch+1 so that an announcement is split into batches.
+// Every batch of notification k carries one extra id 1000+16k+j that is never interesting, which tells the
 // harness which OnlyInterested call belongs to which notification (a timer pass has none).
 // A received batch is delivered with a gate closed in front of OnlyInterested, so that the
 // log order "pass before/after received" is the order in which the loop really took them
@@ -73,10 +75,15 @@ func c16IdsTok(ids []int) string {
 	return strings.Join(s, ",")
 }
 
-func c16Parse(in []string) (int, []c16Op) {
+func c16Parse(in []string) (int, int, []c16Op) {
 	hl, _ := strconv.Atoi(in[0])
+	mb := 99
 	var ops []c16Op
 	i := 1
+	if len(in) > 1 && in[1] != ";" { // optional: real ids per batch (MaxBatch - 1)
+		mb, _ = strconv.Atoi(in[1])
+		i = 2
+	}
 	i64 := func(s string) int64 { v, _ := strconv.ParseInt(s, 10, 64); return v }
 	for i < len(in) {
 		switch in[i] {
@@ -103,7 +110,7 @@ func c16Parse(in []string) (int, []c16Op) {
 			panic("bad op " + in[i])
 		}
 	}
-	return hl, ops
+	return hl, mb, ops
 }
 
 type c16Run struct {
@@ -114,7 +121,7 @@ type c16Run struct {
 	notInt     map[int]bool
 	suspended  bool
 	lastN      int // index in log of the last n: entry (its Suspend answer is patched in)
-	seenN      map[int]bool
+	seenN      map[int]int
 	gateClosed bool
 	waiting    int
 	letOne     int
@@ -144,7 +151,7 @@ func (c *c16Run) onlyInterested(ids []interface{}) []interface{} {
 	for _, x := range ids {
 		v := x.(int)
 		if v >= 1000 {
-			k = v - 1000
+			k = (v - 1000) / 16
 		} else {
 			plain = append(plain, v)
 		}
@@ -160,7 +167,7 @@ func (c *c16Run) onlyInterested(ids []interface{}) []interface{} {
 	if k >= 0 {
 		c.log = append(c.log, fmt.Sprintf("n:%d:%d:%s:-", c.ms(), k, c16IdsTok(ansI)))
 		c.lastN = len(c.log) - 1
-		c.seenN[k] = true
+		c.seenN[k]++
 	} else {
 		c.log = append(c.log, fmt.Sprintf("p:%d:%s:%s", c.ms(), c16IdsTok(plain), c16IdsTok(ansI)))
 	}
@@ -178,15 +185,15 @@ func (c *c16Run) suspend() bool {
 	return c.suspended
 }
 
-func c16RunOnce(hashLimit int, ops []c16Op, c16Unit time.Duration) (obs []string, late bool) {
-	c := &c16Run{notInt: map[int]bool{}, seenN: map[int]bool{}, lastN: -1, unit: c16Unit}
+func c16RunOnce(hashLimit int, mb int, ops []c16Op, c16Unit time.Duration) (obs []string, late bool) {
+	c := &c16Run{notInt: map[int]bool{}, seenN: map[int]int{}, lastN: -1, unit: c16Unit}
 	c.cond = sync.NewCond(&c.mu)
 	cfg := itemsfetcher.Config{
 		ForgetTimeout:       c16Unit*40 + c16Unit/2,
 		ArriveTimeout:       c16Unit * 8,
 		GatherSlack:         c16Unit + c16Unit/2,
 		HashLimit:           hashLimit,
-		MaxBatch:            100,
+		MaxBatch:            mb + 1,
 		MaxParallelRequests: 4,
 		MaxQueuedBatches:    4,
 	}
@@ -217,27 +224,45 @@ func c16RunOnce(hashLimit int, ops []c16Op, c16Unit time.Duration) (obs []string
 		}
 		switch o.kind {
 		case 'N':
-			ids := make([]interface{}, 0, len(o.ids)+1)
-			for _, x := range o.ids {
-				ids = append(ids, x)
+			if k > 0 && ops[k-1].kind == 'N' && ops[k-1].t == o.t {
+				break // already sent together with the previous op (concurrent callers)
 			}
-			ids = append(ids, 1000+k)
-			at := time.Now().Add(-time.Duration(o.off) * c16Unit)
-			c.mu.Lock()
-			c.log = append(c.log, fmt.Sprintf("a:%d:%d:%d", c.ms(), k, int64(at.Sub(c.start))*40/int64(c16Unit)))
-			c.mu.Unlock()
-			_ = f.NotifyAnnounces(strconv.Itoa(o.peer), ids, at, reqFn(o.peer))
-			// wait until the loop has started to process it
-			c.mu.Lock()
-			deadline := time.Now().Add(2 * time.Second)
-			for !c.seenN[k] && time.Now().Before(deadline) {
-				c.mu.Unlock()
-				time.Sleep(100 * time.Microsecond)
-				c.mu.Lock()
+			var wgN sync.WaitGroup
+			for k2 := k; k2 < len(ops) && ops[k2].kind == 'N' && ops[k2].t == o.t; k2++ {
+				wgN.Add(1)
+				go func(k int, o c16Op) {
+					defer wgN.Done()
+					// every batch of mb real ids carries its own marker id 1000 + 16k + j
+					ids := make([]interface{}, 0, len(o.ids)+4)
+					chunks := 0
+					for j := 0; j < len(o.ids); j += mb {
+						e := j + mb
+						if e > len(o.ids) {
+							e = len(o.ids)
+						}
+						for _, x := range o.ids[j:e] {
+							ids = append(ids, x)
+						}
+						ids = append(ids, 1000+16*k+chunks)
+						chunks++
+					}
+					at := time.Now().Add(-time.Duration(o.off) * c16Unit)
+					c.mu.Lock()
+					c.log = append(c.log, fmt.Sprintf("a:%d:%d:%d", c.ms(), k, int64(at.Sub(c.start))*40/int64(c16Unit)))
+					c.mu.Unlock()
+					_ = f.NotifyAnnounces(strconv.Itoa(o.peer), ids, at, reqFn(o.peer))
+					// wait until the loop has started to process every batch of it
+					c.mu.Lock()
+					deadline := time.Now().Add(2 * time.Second)
+					for c.seenN[k] < chunks && time.Now().Before(deadline) {
+						c.mu.Unlock()
+						time.Sleep(100 * time.Microsecond)
+						c.mu.Lock()
+					}
+					c.mu.Unlock()
+				}(k2, ops[k2])
 			}
-			c.mu.Unlock()
-			// ... and has finished with it (the notification channel is empty and the loop is
-			// not inside a callback: approximated by a short pause)
+			wgN.Wait()
 			time.Sleep(300 * time.Microsecond)
 		case 'R':
 			ids := make([]interface{}, 0, len(o.ids))
@@ -307,7 +332,7 @@ func c16RunOnce(hashLimit int, ops []c16Op, c16Unit time.Duration) (obs []string
 }
 
 func c16RunCase(in []string) []string {
-	hl, ops := c16Parse(in)
+	hl, mb, ops := c16Parse(in)
 	var obs []string
 	var late bool
 	for attempt := 0; attempt < 3; attempt++ {
@@ -315,7 +340,7 @@ func c16RunCase(in []string) []string {
 		if attempt == 2 { // last attempt: slower clock, proportionally larger tolerances
 			unit = c16UnitDefault * 5 / 2
 		}
-		obs, late = c16RunOnce(hl, ops, unit)
+		obs, late = c16RunOnce(hl, mb, ops, unit)
 		if !late {
 			vu.Stat("attempts_" + strconv.Itoa(attempt+1))
 			return obs
@@ -336,15 +361,26 @@ func c16Gen(r *rand.Rand, n int, tier string, emit func(...string)) {
 			hl = 3 + r.Intn(6)
 		}
 		toks := []string{strconv.Itoa(hl)}
+		if r.Intn(5) == 0 { // MaxBatch splitting: 1 or 2 real ids per batch
+			toks = append(toks, strconv.Itoa(1+r.Intn(2)))
+			vu.Stat("family_maxbatch")
+		}
 		t := int64(0)
+		lastWasN := false
 		nops := 3 + r.Intn(8)
 		suspended := false
 		var announced []int
 		for k := 0; k < nops; k++ {
-			t += int64(1 + r.Intn(5))
+			x := r.Intn(20)
+			isN := x < 10 || len(announced) == 0
+			if isN && lastWasN && r.Intn(4) == 0 {
+				vu.Stat("concurrent_notify") // same instant as the previous announcement: concurrent callers
+			} else {
+				t += int64(1 + r.Intn(5))
+			}
+			lastWasN = isN
 			ts := strconv.FormatInt(t, 10)
 			toks = append(toks, ";")
-			x := r.Intn(20)
 			switch {
 			case x < 10 || len(announced) == 0:
 				peer := 1 + r.Intn(3)
@@ -392,7 +428,7 @@ func c16Gen(r *rand.Rand, n int, tier string, emit func(...string)) {
 				vu.Stat("op_suspend")
 			}
 		}
-		t += int64(10 + r.Intn(14))
+		t += int64(18 + r.Intn(8))
 		toks = append(toks, ";", "E", strconv.FormatInt(t, 10))
 		emit(toks...)
 	}
